@@ -206,6 +206,7 @@ package db
 //@   pure
 //@   ensures [empty] len(rec) == 0 ==> err != nil
 //@   ensures [ok] err == nil ==> isInt64(rec[len(rec)-1]) && r0 == asInt64(rec[len(rec)-1]) && r1 == rec[:len(rec)-1]
+//@   trusted-ensures [name] err == nil ==> r0 == last_int(rec)
 //@   ensures [accept] len(rec) > 0 && isInt64(rec[len(rec)-1]) ==> err == nil
 
 // ---------------------------------------------------------------------------------------
